@@ -153,12 +153,14 @@ class Interp:
             self.enums.update(enums)
         self.cenum_bits = {}         # C-like enums represented as ints: name -> bits
         for n, vs in self.enums.items():
+            if n == '__ambiguous__':
+                continue
             if vs and all(not hf for _, hf, _ in vs) and n not in ('Ordering',):
                 self.cenum_bits[n] = 16
         self.byname = {}
         for cn, bs in crates.items():
             for n, b in bs.items():
-                self.byname.setdefault((cn, n.split('::')[-1]), []).append(b)
+                self.byname.setdefault((cn, n.split('::')[-1].split('#')[0]), []).append(b)
         self.closures = {}
         for cn, bs in crates.items():
             for n, b in bs.items():
@@ -395,6 +397,28 @@ class Interp:
             g2 = [b for b in good if self.impl_info(b.name)[0] is None]
             if g2:
                 good = g2
+        if not good and trait in ('From', 'Into') and cands:
+            # macro-generated impls share one source span: match by signature (argument and return types)
+            mt = re.match(r"^<(.+) as ([\w:]+)<(.*)>>::(\w+)", callee)
+            if mt:
+                last = lambda t: re.sub(r"<.*", '', t.strip().lstrip('&')).split('::')[-1]
+                selfty, garg = last(mt.group(1)), last(mt.group(3))
+                want_ret, want_arg = (selfty, garg) if trait == 'From' else (garg, selfty)
+                g4 = [b for b in cands if b.args and last(b.args[0][1]) == want_arg and last(b.ret or '') == want_ret]
+                if len(g4) == 1:
+                    return g4[0]
+        if len(good) > 1:
+            # several impls of one generic trait for the same type (Index<ExprId> / Index<PatternId> for Body):
+            # pick the one whose parameter types mention the trait's generic argument
+            mt = re.match(r"^<(.+) as ([\w:]+)<(.*)>>::(\w+)", callee)
+            if mt:
+                norm = lambda t: re.sub(r"\b\w+::", '', t).replace(' ', '')
+                targ = norm(mt.group(3))
+                g3 = [b for b in good if targ in norm(' '.join(t for _, t in b.args))]
+                if len(g3) == 1:
+                    good = g3
+                elif len(g3) != 1:
+                    return None
         return good[0] if good else None
 
     # ---- constants
@@ -419,6 +443,12 @@ class Interp:
             return IntV(ord(eval(_rust_str_to_py(t))), 32, 0)
         if t == '()':
             return UNIT
+        mce = re.match(r'^(?:[\w:]+::)?(Option|Result)(?:::<.*>)?::(Some|Ok|Err)\((.*)\)$', t)
+        if mce:
+            return Agg('enum', mce.group(1), mce.group(2), [self.const(mce.group(3))])
+        mce = re.match(r'^(?:[\w:]+::)?Option(?:::<.*>)?::None$', t)
+        if mce:
+            return none()
         if t.startswith('ZeroSized'):
             m = re.search(r'\{closure@[^}]*\}', t)
             if m:
@@ -759,7 +789,11 @@ class Interp:
             ekey = None
             if en == 'Jump' and len(segs) >= 3:
                 ekey = segs[-3] + '::Jump'
+            elif len(segs) >= 3 and '::'.join(_strip_angle(x) for x in segs[:-1]) in self.enums:
+                ekey = '::'.join(_strip_angle(x) for x in segs[:-1])      # module-qualified (two enums may share a short name)
             elif en in self.enums:
+                if en in self.enums.get('__ambiguous__', ()):
+                    raise Unsupported('enum name %s is declared in several modules and %s does not say which' % (en, path))
                 ekey = en
             if ekey is not None and ekey in self.enums:
                 vs = self.enums[ekey]
@@ -781,6 +815,8 @@ class Interp:
             # enum (or associated const) of a crate we have no declaration for
             if self.uc:
                 return LazyV('const ' + path)
+            if form == 'unit' and last.upper() == last:
+                return Opaque('const ' + path)        # associated constant of a foreign type (e.g. tracing::Level::DEBUG)
             raise Unsupported('aggregate of undeclared enum %s' % path)
         return Agg('struct', _strip_angle(last), None, fields)
 
